@@ -51,7 +51,7 @@ func selftest(id string, pc *PropConfig, kf *KFFile, seed int) int {
 		smtDir := filepath.Join(verifDir, "work", "smt", id+"-selftest")
 		os.RemoveAll(smtDir)
 		os.MkdirAll(smtDir, 0o755)
-		res := runProperty(id, pc, "/repo", map[string][]byte{full: []byte(mut)}, kf.Findings, 10*time.Second, false, seed, smtDir)
+		res := runProperty(id, pc, "/repo", map[string][]byte{full: []byte(mut)}, kf.Findings, 25*time.Second, false, seed, smtDir)
 		outcome := "pass"
 		detail := ""
 		if len(res.Errors) > 0 {
@@ -68,6 +68,24 @@ func selftest(id string, pc *PropConfig, kf *KFFile, seed int) int {
 					outcome = "violation"
 					detail = ob.Name
 					break
+				}
+			}
+		}
+		if outcome == "violation" && m.Expect == "pass" {
+			// a harmless mutant flagged: only a timeout/unknown under load may explain it; try once more with a
+			// generous limit before calling it a wrong outcome
+			res2 := runProperty(id, pc, "/repo", map[string][]byte{full: []byte(mut)}, kf.Findings, 90*time.Second, false, seed, smtDir)
+			if len(res2.Errors) == 0 {
+				all := true
+				for _, ob := range res2.Obls {
+					if !ob.ExpectSat && ob.Result.Status != "unsat" {
+						all = false
+						detail = ob.Name
+						break
+					}
+				}
+				if all {
+					outcome, detail = "pass", "(second run with a longer limit)"
 				}
 			}
 		}
@@ -162,7 +180,7 @@ func quickCanary(id string, pc *PropConfig, kf *KFFile, seed int) int {
 		smtDir := filepath.Join(verifDir, "work", "smt", id+"-canary")
 		os.RemoveAll(smtDir)
 		os.MkdirAll(smtDir, 0o755)
-		res := runProperty(id, pc, "/repo", map[string][]byte{full: []byte(mut)}, kf.Findings, 10*time.Second, false, seed, smtDir)
+		res := runProperty(id, pc, "/repo", map[string][]byte{full: []byte(mut)}, kf.Findings, 25*time.Second, false, seed, smtDir)
 		os.RemoveAll(smtDir)
 		if len(res.Errors) > 0 {
 			fmt.Printf("canary %s: engine error on the mutated tree (not counted)\n", m.Name)
